@@ -514,7 +514,8 @@ class kLeastAbsErrorsCycles(walkmodel.AbstractWalkModelDiGraph):
 
         # sum of (scaled) edge errors, as in the objective function of the model
         edge_errors = self.get_solution()["edge_errors"]
-        return sum(error * self.edge_error_scaling.get(edge, 1) for edge, error in edge_errors.items())
+        # (the factors as Python floats, as in the objective of the model: a product with np.float32 is computed in 24-bit precision)
+        return sum(error * float(self.edge_error_scaling.get(edge, 1)) for edge, error in edge_errors.items())
     
     def get_lowerbound_k(self):
 
